@@ -496,8 +496,10 @@ class AlignmentCollector:
             return GeneInfo.from_region(self.chr_id, current_region[0], current_region[1],
                                         self.params.delta, self.chr_record)
 
-        gene_list = list(self.genedb.region(seqid=self.chr_id, start=current_region[0],
-                                            end=current_region[1], featuretype="gene"))
+        # current_region is a closed interval of 0-based positions (reference_start, reference_end - 1); gffutils
+        # coordinates are 1-based, so the same bases are [start + 1, end + 1]
+        gene_list = list(self.genedb.region(seqid=self.chr_id, start=current_region[0] + 1,
+                                            end=current_region[1] + 1, featuretype="gene"))
         if not gene_list:
             return GeneInfo.from_region(self.chr_id, current_region[0], current_region[1],
                                         self.params.delta, self.chr_record)
